@@ -175,7 +175,8 @@ class MemoryPoolList {
     auto pool = &pools_[count_++];
     SlotCount poolCapacity = ARDUINOJSON_POOL_CAPACITY;
     if (count_ == maxPools)  // last pool is smaller because of NULL_SLOT
-      poolCapacity--;
+      poolCapacity = SlotCount(
+          NULL_SLOT - SlotId(maxPools - 1) * ARDUINOJSON_POOL_CAPACITY);
     pool->create(poolCapacity, allocator);
     return pool;
   }
